@@ -144,4 +144,29 @@ example : command (fun t => if t = 3 then .die else .ok) 6 2 [1, 0, 1, 1, 0, 0] 
 example : command (fun t => if t = 4 then .raise 7 else .ok) 6 3 [2, 2, 0, 1, 0, 0] = .taskError 7 := by decide
 example : command (fun _ => .ok) 6 3 [2, 2, 0, 1, 0, 0] = .ok := by decide
 
+/-- **C14 (never hangs, progress counter)**: whenever a failure is being reported — the body raised
+    or `wait_on_futures` raises — the repaired `__exit__` performs no step that needs the progress
+    counter's lock, so it cannot block even if a killed worker took the lock with it -/
+theorem C14_exit_never_blocks_on_lost_lock (bodyRaised waitRaises lockLost : Bool)
+    (h : bodyRaised = true ∨ waitRaises = true) :
+    exitHangs lockLost (exitSteps true bodyRaised waitRaises) = false := by
+  cases bodyRaised <;> cases waitRaises <;> cases lockLost <;> simp_all [exitHangs, exitSteps, ExitStep.needsLock]
+
+/-- a dead worker always leads to one of the two: its future is broken, so either the body met it
+    (`bodyRaised`) or `wait_on_futures` raises -/
+theorem C14_death_reaches_exit_as_failure (events : List Res) (h : Res.broken ∈ events) :
+    (waitOnFutures events).1 ≠ Verdict.ok := by
+  have := wait_error_of_bad events ⟨Res.broken, h, by decide⟩
+  exact this
+
+/-- without a failure nothing was killed holding the lock, and the full shutdown sequence runs -/
+theorem C14_exit_success_path (repaired : Bool) :
+    exitSteps repaired false false = [.waitFutures, .setCompleted, .shutdown, .joinProgress, .readProgress, .closeBar] := by
+  cases repaired <;> rfl
+
+/-- **F13**: before the repair a failure raised in the body (the scan of `explode` / `explode_init`)
+    still joined the progress thread and read the counter: with the lock lost, `__exit__` never returns -/
+theorem C14_unrepaired_exit_hangs_counterexample :
+    exitHangs true (exitSteps false true false) = true ∧ exitHangs true (exitSteps true true false) = false := by decide
+
 end B2Z.Sched
